@@ -227,6 +227,22 @@ func runRepr(c ReprCase, r *runlog.R) error {
 		if !equal(d1, want) {
 			return fmt.Errorf("variant %d (%T): the generic view differs from the data\n got  %s\n want %s", vi, src, show(d1), show(want))
 		}
+		if vi == 0 {
+			// the same through an interface{}-typed struct field
+			var w struct {
+				V interface{} `config:"v"`
+			}
+			cw, err := newFrom(map[string]interface{}{"v": src}, opts)
+			if err != nil {
+				return fmt.Errorf("NewFrom({v: %T}) failed: %v", src, err)
+			}
+			if err := uc.Safe("Unpack", func() error { return cw.Unpack(&w, opts...) }); err != nil {
+				return fmt.Errorf("unpacking into struct{V interface{}} failed: %v", err)
+			}
+			if !equal(w.V, want) {
+				return fmt.Errorf("(%T) unpacked into an interface{} field: the generic view differs from the data\n got  %s\n want %s", src, show(w.V), show(want))
+			}
+		}
 		// idempotence: the unpacked result fed back in
 		c2, err := newFrom(d1, opts)
 		if err != nil {
